@@ -75,13 +75,9 @@ theorem decodeShdr_lazy (c : Cls) (enc : Enc) (r : Bytes) (ss : BitVec 64) (te :
   cases c <;> rfl
 
 @[simp] theorem streamSizeOf_data (tr : List Trans) (st : IStream) : (streamSizeOf tr st).1.data = st.data := by
-  unfold streamSizeOf; split
-  · simp
-  · rfl
+  rw [streamSizeOf_val_ls]; split <;> rfl
 @[simp] theorem streamSizeOf_kind (tr : List Trans) (st : IStream) : (streamSizeOf tr st).1.kind = st.kind := by
-  unfold streamSizeOf; split
-  · simp
-  · rfl
+  rw [streamSizeOf_val_ls]; split <;> rfl
 @[simp] theorem hdrRead_data (tr : List Trans) (st : IStream) (o : Int) (n : Nat) :
     (hdrRead_ls tr st o n).1.data = st.data := by simp [hdrRead_ls]
 @[simp] theorem hdrRead_kind (tr : List Trans) (st : IStream) (o : Int) (n : Nat) :
@@ -462,15 +458,11 @@ theorem translated_hdrRead_eq (cont img : Bytes) (table : List Trans) (sc si : I
   obtain ⟨h0, h1, h2, h3⟩ := hrep
   subst hsc; subst hsi
   rw [hdrRead_inside si hie hif k n h2]
-  have hss : streamSizeOf table sc = (sc, u64max) := by
-    unfold streamSizeOf
-    cases table with
-    | nil => exact absurd rfl hne
-    | cons a l => rfl
   unfold hdrRead_ls
-  rw [hss]
+  rw [streamSizeOf_good_ls table sc hce hcf]
   simp only []
-  rw [IStream.seekg_ok_ls sc hcf _ h0 (by omega),
+  rw [IStream.seekg_ok_ls { sc with pos := sc.data.length } hcf _ h0
+      (by show (trApply table (Int.ofNat k)).toNat ≤ sc.data.length; omega),
     IStream.read_ok_ls { sc with pos := (trApply table (Int.ofNat k)).toNat, eof := false } rfl hcf n h1]
   simp only [Int.ofNat_eq_natCast] at *
   simp [h3, hcf]
@@ -598,20 +590,13 @@ theorem hdrRead_flagEq (tr : List Trans) (s s' : IStream) (h : FlagEq s s') (off
   | mk d' p' e' f' g' k' =>
     simp only at hd hk hf
     subst hd; subst hk; subst hf
-    unfold hdrRead_ls streamSizeOf FlagEq
-    cases tr with
-    | nil =>
-      cases f
-      · simp [IStream.seekEnd, IStream.tellg, IStream.good, IStream.seekg, IStream.read]
-        repeat' split
-        all_goals simp_all
-      · simp [IStream.seekEnd, IStream.tellg, IStream.good, IStream.seekg, IStream.read]
-    | cons a l =>
-      cases f
-      · simp [IStream.seekg, IStream.read, IStream.good]
-        repeat' split
-        all_goals simp_all
-      · simp [IStream.seekg, IStream.read, IStream.good]
+    unfold hdrRead_ls FlagEq
+    simp only [streamSizeOf_val_ls]
+    cases f
+    · simp [IStream.good, IStream.seekg, IStream.read]
+      repeat' split
+      all_goals simp_all
+    · simp [IStream.good, IStream.seekg, IStream.read]
 
 /-- a record read that leaves the stream unfailed was made on an unfailed stream, so the size
     probe saw the real length -/
@@ -619,10 +604,11 @@ theorem hdrRead_ss (s : IStream) (off : Int) (n : Nat) (h : (hdrRead_ls [] s off
     (hdrRead_ls [] s off n).2.2 = BitVec.ofNat 64 s.data.length := by
   cases s with
   | mk d p e f g k =>
-    unfold hdrRead_ls streamSizeOf at h ⊢
+    unfold hdrRead_ls at h ⊢
+    simp only [streamSizeOf_val_ls] at h ⊢
     cases f
-    · simp [IStream.seekEnd, IStream.tellg, IStream.good]
-    · simp [IStream.seekEnd, IStream.tellg, IStream.good, IStream.seekg, IStream.read] at h
+    · simp
+    · simp [IStream.good, IStream.seekg, IStream.read] at h
 
 theorem isolatedRead_fail_of_fail (s : IStream) (off n : BitVec 64) (h : s.fail = true) :
     (isolatedRead s off n).1.fail = true := by
@@ -913,8 +899,8 @@ theorem hdrRead_fail_mono (tr : List Trans) (s : IStream) (off : Int) (n : Nat) 
   cases s with
   | mk d p e f g k =>
     simp only at h; subst h
-    unfold hdrRead_ls streamSizeOf
-    cases tr <;> simp [IStream.seekEnd, IStream.tellg, IStream.good, IStream.seekg, IStream.read]
+    unfold hdrRead_ls
+    simp [streamSizeOf_val_ls, IStream.good, IStream.seekg, IStream.read]
 
 theorem secGetData_fail_mono (c : Cls) (tr : List Trans) (ls : LoadSt) (b : SecBuf) (h : ls.st.fail = true) :
     (secGetData c tr ls b).1.st.fail = true := by
@@ -1853,13 +1839,13 @@ example : ∃ rp rt : LoadRes, load {} { data := wfImage } false = .ok rp ∧
     (by decide +kernel) (by decide +kernel)
 
 
-/-! ### a limit of lazy = eager: translation table + truncated container (candidate finding)
+/-! ### translation table + truncated container (former finding F16, repaired)
 
-With a non-empty table `stream_size = SIZE_MAX`, so no bound protects the eager data read; when the
-container is too short the read comes up short, `setstate(earlier)` keeps the new failbit, and every
-*later* section header is unreadable in the eager load — the lazy load reads them all.  Both loads
-return true.  (`lazy_eq_eager` therefore needs `o.trans = []`; `translated_eq_plain` needs
-`Represents`.)  The same transcript was obtained from the real code with harness/load.cpp. -/
+Before the repair a non-empty table made `stream_size = SIZE_MAX`, so no bound protected the eager data
+read; on a container that is too short the read came up short, `setstate(earlier)` kept the new failbit,
+and every *later* section header was unreadable in the eager load while the lazy load read them all
+(both loads returned true).  `section_impl::load` / `segment_impl::load` now record the real stream size
+with a table too: the out-of-range data read is refused in both modes and the stream stays usable. -/
 
 /-- C02's example image with `e_phnum = 0`, cut into `[108,228)` and `[0,108)`, the second piece
     truncated to 86 bytes (the `.text` data at 84..88 is incomplete) -/
@@ -1872,8 +1858,10 @@ def secTypes (r : M LoadRes) : Option (Bool × List Nat) :=
   | .ok r => some (r.ok, r.obj.secs.map (·.stype.toNat))
   | .error _ => none
 
-theorem lazy_eager_translated_truncated_witness :
-    secTypes (load { trans := truncTable } { data := truncContainer } false) = some (true, [0, 1, 0]) ∧
+/-- on the former F16 witness the eager and the lazy load now show the same sections (all three
+    headers read; the `.text` data, cut off in the container, is refused by both) -/
+theorem lazy_eager_translated_truncated_agree :
+    secTypes (load { trans := truncTable } { data := truncContainer } false) = some (true, [0, 1, 3]) ∧
     secTypes (load { trans := truncTable } { data := truncContainer } true) = some (true, [0, 1, 3]) := by
   decide +kernel
 
